@@ -76,6 +76,18 @@ def _mat_series(rng, D, P, n, m=None, pivot=False, scale=0.6):
     x = scale * rng.normal(size=(D, P, n, m))
     for p in range(P):
         x[0, p] = _base(rng, n, pivot) if n == m else gen.well_conditioned(rng, n, m)
+    if n == m and n >= 2 and rng.random() < 0.35:
+        # base matrices with (almost) special structure: exactly / nearly symmetric, exactly / nearly triangular - a kernel must not
+        # take a structure-specific shortcut on a matrix that only nearly has the structure
+        for p in range(P):
+            kind = int(rng.integers(4))
+            B = x[0, p]
+            if kind in (0, 1):
+                S = B @ B.T / np.max(np.abs(B))
+                x[0, p] = S if kind == 0 else S + 10.0 ** -float(rng.integers(6, 10)) * rng.normal(size=(n, n)) * np.max(np.abs(S))
+            else:
+                Tm = np.triu(0.3 * rng.normal(size=(n, n)), 1) + np.diag(rng.uniform(1.0, 2.0, size=n) * rng.choice([-1.0, 1.0], size=n))
+                x[0, p] = Tm if kind == 2 else Tm + 10.0 ** -float(rng.integers(9, 12)) * np.tril(rng.normal(size=(n, n)), -1)
     # sparse higher-coefficient patterns now and then
     if D > 2 and rng.random() < 0.25:
         x[1:-1] = 0
@@ -225,6 +237,16 @@ def _solve(ctx, p, rng):
         a[1:] = 0; a[0, 1:] = a[0, 0]
     sa = 10.0 ** float([0, 0, -12, 12, -150, 150][int(rng.integers(6))])
     a = a * sa; b = b * (sa if rng.random() < 0.5 else 1.0)
+    if kinds != 'UU' and rng.random() < 0.3:
+        # the constant operand complex, the polynomial operand real (and the other way round): the result is complex
+        if (kinds == 'AU') == (rng.random() < 0.7):
+            a = a + 0.3j * sa * rng.normal(size=a.shape) * (np.arange(a.shape[0]).reshape(-1, 1, 1, 1) == 0 if kinds == 'AU' else 1)
+            if kinds == 'AU':
+                a[0, 1:] = a[0, 0]
+        else:
+            b = b + 0.5j * rng.normal(size=b.shape) * np.max(np.abs(b)) * (np.arange(b.shape[0]).reshape(-1, 1, 1, 1) == 0 if kinds == 'UA' else 1)
+            if kinds == 'UA':
+                b[0, 1:] = b[0, 0]
     cond = max(lin.cond2(a[0, pp]) for pp in range(P))
     if cond > 1e3:
         ctx.skip('out_of_domain:cond'); return
